@@ -1,6 +1,8 @@
 import DoltVerif.Model.Wire
 import DoltVerif.Model.CorruptTable
 import DoltVerif.Model.CorruptFormats
+import DoltVerif.Model.CorruptArchive
+import DoltVerif.Model.CorruptWitness
 open DoltVerif DoltVerif.Wire DoltVerif.Corrupt
 
 /-- driver state: the registered valid files -/
@@ -55,6 +57,22 @@ def tblAnswer (o : R Table.Open) (qs : List Bytes) : String :=
       | (xs, none) => "k:" ++ itemsStr xs
     s!"open=ok has={has} get={gets} iter={it}"
 
+def arcAnswer (file : Bytes) (qs : List Bytes) : String :=
+  match Archive.loadIndex file with
+  | .error .panicWouldOccur => "open=panic"
+  | .error _ => "open=err"
+  | .ok x =>
+    let has := String.ofList (qs.map (fun q => match x.has q with
+      | .ok true => '1' | .ok false => '0' | .error .panicWouldOccur => 'p' | .error _ => 'e'))
+    let rd : R Bytes → String := fun r => match r with
+      | .ok d => "d" ++ hex d | .error .panicWouldOccur => "p" | .error _ => "e"
+    let gets := ";".intercalate (qs.map (fun q => match Archive.get x file q with
+      | .ok .absent => "a"
+      | .ok (.snappy p) => "k" ++ hex p
+      | .ok (.zstd dict data) => "z" ++ hex dict ++ ":" ++ rd data
+      | .error .panicWouldOccur => "p" | .error _ => "e"))
+    s!"open=ok has={has} get={gets}"
+
 def signed64 (n : Nat) : String := if n ≥ 2 ^ 63 then "-" ++ toString (two64 - n) else toString n
 
 def step (st : St) : List String → St × String
@@ -69,6 +87,11 @@ def step (st : St) : List String → St × String
           (st, tblAnswer o qs)
         | _, _, _, _ => (st, "bad-op")
       else (st, "bad-op")
+  | ["arc", id, mu, qs] =>
+      match mutated st id mu, (qs.splitOn ",").mapM unhex with
+      | some f, some qs => (st, arcAnswer f qs)
+      | _, _ => (st, "bad-op")
+  | ["witness", "arc"] => (st, s!"{hex Witness.arcFile} {hex Witness.arcAddr} {Witness.arcSpanOffset}")
   | ["man", id, mu] => match mutated st id mu with
       | some f => (st, errOrPanic (Manifest.parseManifest f) (fun c =>
           s!"ok {c.vers} {hex c.nbf} {hex c.lock} {hex c.root} {hex c.gcGen}" ++
